@@ -58,7 +58,9 @@ static uint32_t v1201_1, v1201_2;
 #endif
 #ifdef OD_EMCY
 static uint8_t  v1003_0;
-static uint32_t v1003[OD_EMCY_H];
+static uint32_t v1003_1, v1003_2, v1003_3, v1003_4;
+static uint32_t * const v1003p[4] = { &v1003_1, &v1003_2, &v1003_3, &v1003_4 };
+#define V1003(i) (*v1003p[(i)])
 static uint32_t v1014;
 static CO_EMCY_TBL od_emcy_tbl[CO_EMCY_N];
 #endif
@@ -76,7 +78,9 @@ static CO_HBCONS * const v1016p[3] = { &v1016_a, &v1016_b, &v1016_c };
 #define V1016(i) (*v1016p[(i)])
 #endif
 #ifdef OD_PARA
-static CO_PARA  od_para[3];
+static CO_PARA  od_para_0, od_para_1, od_para_2;
+static CO_PARA * const od_parap[3] = { &od_para_0, &od_para_1, &od_para_2 };
+#define OD_PARA_(i) (*od_parap[(i)])
 static uint8_t  od_para_ram[3][8];
 static uint8_t  od_para_def[3][8];
 #endif
@@ -84,19 +88,42 @@ static uint8_t  od_para_def[3][8];
 static uint32_t v1280_1, v1280_2;
 static uint8_t  v1280_3;
 #endif
+/* every dictionary variable is a separate scalar object: for array elements other than the first
+ * one cbmc does not fold `obj->Data != 0` (the integer-cast address) to a constant and the
+ * type-size result - and everything behind it - turns symbolic (DESIGN.md §3) */
 #if OD_RPDO > 0
-static uint32_t v1400_1[2];
-static uint8_t  v1400_2[2];
-static uint8_t  v1600_0[2];
-static uint32_t v1600[2][OD_MAPS];
+static uint32_t v1400_1_0, v1400_1_1;
+static uint8_t  v1400_2_0, v1400_2_1;
+static uint8_t  v1600_0_0, v1600_0_1;
+static uint32_t v1600_00, v1600_01, v1600_02, v1600_03, v1600_10, v1600_11, v1600_12, v1600_13;
+static uint32_t * const v1400_1p[2] = { &v1400_1_0, &v1400_1_1 };
+static uint8_t  * const v1400_2p[2] = { &v1400_2_0, &v1400_2_1 };
+static uint8_t  * const v1600_0p[2] = { &v1600_0_0, &v1600_0_1 };
+static uint32_t * const v1600p[2][4] = { { &v1600_00, &v1600_01, &v1600_02, &v1600_03 }, { &v1600_10, &v1600_11, &v1600_12, &v1600_13 } };
+#define V1400_1(c) (*v1400_1p[(c)])
+#define V1400_2(c) (*v1400_2p[(c)])
+#define V1600_0(c) (*v1600_0p[(c)])
+#define V1600(c, k) (*v1600p[(c)][(k)])
 #endif
 #if OD_TPDO > 0
-static uint32_t v1800_1[2];
-static uint8_t  v1800_2[2];
-static uint16_t v1800_3[2];
-static uint16_t v1800_5[2];
-static uint8_t  v1A00_0[2];
-static uint32_t v1A00[2][OD_MAPS];
+static uint32_t v1800_1_0, v1800_1_1;
+static uint8_t  v1800_2_0, v1800_2_1;
+static uint16_t v1800_3_0, v1800_3_1;
+static uint16_t v1800_5_0, v1800_5_1;
+static uint8_t  v1A00_0_0, v1A00_0_1;
+static uint32_t v1A00_00, v1A00_01, v1A00_02, v1A00_03, v1A00_10, v1A00_11, v1A00_12, v1A00_13;
+static uint32_t * const v1800_1p[2] = { &v1800_1_0, &v1800_1_1 };
+static uint8_t  * const v1800_2p[2] = { &v1800_2_0, &v1800_2_1 };
+static uint16_t * const v1800_3p[2] = { &v1800_3_0, &v1800_3_1 };
+static uint16_t * const v1800_5p[2] = { &v1800_5_0, &v1800_5_1 };
+static uint8_t  * const v1A00_0p[2] = { &v1A00_0_0, &v1A00_0_1 };
+static uint32_t * const v1A00p[2][4] = { { &v1A00_00, &v1A00_01, &v1A00_02, &v1A00_03 }, { &v1A00_10, &v1A00_11, &v1A00_12, &v1A00_13 } };
+#define V1800_1(c) (*v1800_1p[(c)])
+#define V1800_2(c) (*v1800_2p[(c)])
+#define V1800_3(c) (*v1800_3p[(c)])
+#define V1800_5(c) (*v1800_5p[(c)])
+#define V1A00_0(c) (*v1A00_0p[(c)])
+#define V1A00(c, k) (*v1A00p[(c)][(k)])
 #endif
 #ifndef OD_NOAPP
 /* a guard word before and after every application variable */
@@ -117,26 +144,26 @@ static CO_OBJ_STR od_str = { 0, app.str };
 /* ---- dictionary (sorted) -------------------------------------------------- */
 static CO_OBJ od[] = {
 #ifdef OD_DUMMY
-    { OD_ID(0x0002, 0, CO_OBJ_D__PRW), CO_TUNSIGNED8,  (CO_DATA)0 },
-    { OD_ID(0x0003, 0, CO_OBJ_D__PRW), CO_TUNSIGNED16, (CO_DATA)0 },
-    { OD_ID(0x0004, 0, CO_OBJ_D__PRW), CO_TUNSIGNED32, (CO_DATA)0 },
-    { OD_ID(0x0005, 0, CO_OBJ_D__PRW), CO_TUNSIGNED8,  (CO_DATA)0 },
-    { OD_ID(0x0006, 0, CO_OBJ_D__PRW), CO_TUNSIGNED16, (CO_DATA)0 },
-    { OD_ID(0x0007, 0, CO_OBJ_D__PRW), CO_TUNSIGNED32, (CO_DATA)0 },
+    { OD_ID(0x0002, 0, (CO_OBJ_D_____ | CO_OBJ____PRW)), CO_TUNSIGNED8,  (CO_DATA)0 },
+    { OD_ID(0x0003, 0, (CO_OBJ_D_____ | CO_OBJ____PRW)), CO_TUNSIGNED16, (CO_DATA)0 },
+    { OD_ID(0x0004, 0, (CO_OBJ_D_____ | CO_OBJ____PRW)), CO_TUNSIGNED32, (CO_DATA)0 },
+    { OD_ID(0x0005, 0, (CO_OBJ_D_____ | CO_OBJ____PRW)), CO_TUNSIGNED8,  (CO_DATA)0 },
+    { OD_ID(0x0006, 0, (CO_OBJ_D_____ | CO_OBJ____PRW)), CO_TUNSIGNED16, (CO_DATA)0 },
+    { OD_ID(0x0007, 0, (CO_OBJ_D_____ | CO_OBJ____PRW)), CO_TUNSIGNED32, (CO_DATA)0 },
 #endif
     { OD_ID(0x1000, 0, CO_OBJ_D___R_), CO_TUNSIGNED32, (CO_DATA)0x00000191 },
     { OD_ID(0x1001, 0, CO_OBJ____PR_), CO_TUNSIGNED8,  (CO_DATA)&v1001 },
 #ifdef OD_EMCY
     { OD_ID(0x1003, 0, CO_OBJ_____RW), CO_TEMCY_HIST, (CO_DATA)&v1003_0 },
-    { OD_ID(0x1003, 1, CO_OBJ_____R_), CO_TEMCY_HIST, (CO_DATA)&v1003[0] },
+    { OD_ID(0x1003, 1, CO_OBJ_____R_), CO_TEMCY_HIST, (CO_DATA)&v1003_1 },
 #if OD_EMCY_H > 1
-    { OD_ID(0x1003, 2, CO_OBJ_____R_), CO_TEMCY_HIST, (CO_DATA)&v1003[1] },
+    { OD_ID(0x1003, 2, CO_OBJ_____R_), CO_TEMCY_HIST, (CO_DATA)&v1003_2 },
 #endif
 #if OD_EMCY_H > 2
-    { OD_ID(0x1003, 3, CO_OBJ_____R_), CO_TEMCY_HIST, (CO_DATA)&v1003[2] },
+    { OD_ID(0x1003, 3, CO_OBJ_____R_), CO_TEMCY_HIST, (CO_DATA)&v1003_3 },
 #endif
 #if OD_EMCY_H > 3
-    { OD_ID(0x1003, 4, CO_OBJ_____R_), CO_TEMCY_HIST, (CO_DATA)&v1003[3] },
+    { OD_ID(0x1003, 4, CO_OBJ_____R_), CO_TEMCY_HIST, (CO_DATA)&v1003_4 },
 #endif
 #endif
 #ifdef OD_SYNC
@@ -145,20 +172,20 @@ static CO_OBJ od[] = {
 #endif
 #ifdef OD_PARA
     { OD_ID(0x1010, 0, CO_OBJ_D___R_), CO_TUNSIGNED8,  (CO_DATA)OD_PARA_G },
-    { OD_ID(0x1010, 1, CO_OBJ_____RW), CO_TPARA_STORE, (CO_DATA)&od_para[0] },
+    { OD_ID(0x1010, 1, CO_OBJ_____RW), CO_TPARA_STORE, (CO_DATA)&od_para_0 },
 #if OD_PARA_G > 1
-    { OD_ID(0x1010, 2, CO_OBJ_____RW), CO_TPARA_STORE, (CO_DATA)&od_para[1] },
+    { OD_ID(0x1010, 2, CO_OBJ_____RW), CO_TPARA_STORE, (CO_DATA)&od_para_1 },
 #endif
 #if OD_PARA_G > 2
-    { OD_ID(0x1010, 3, CO_OBJ_____RW), CO_TPARA_STORE, (CO_DATA)&od_para[2] },
+    { OD_ID(0x1010, 3, CO_OBJ_____RW), CO_TPARA_STORE, (CO_DATA)&od_para_2 },
 #endif
     { OD_ID(0x1011, 0, CO_OBJ_D___R_), CO_TUNSIGNED8,  (CO_DATA)OD_PARA_G },
-    { OD_ID(0x1011, 1, CO_OBJ_____RW), CO_TPARA_RESTORE, (CO_DATA)&od_para[0] },
+    { OD_ID(0x1011, 1, CO_OBJ_____RW), CO_TPARA_RESTORE, (CO_DATA)&od_para_0 },
 #if OD_PARA_G > 1
-    { OD_ID(0x1011, 2, CO_OBJ_____RW), CO_TPARA_RESTORE, (CO_DATA)&od_para[1] },
+    { OD_ID(0x1011, 2, CO_OBJ_____RW), CO_TPARA_RESTORE, (CO_DATA)&od_para_1 },
 #endif
 #if OD_PARA_G > 2
-    { OD_ID(0x1011, 3, CO_OBJ_____RW), CO_TPARA_RESTORE, (CO_DATA)&od_para[2] },
+    { OD_ID(0x1011, 3, CO_OBJ_____RW), CO_TPARA_RESTORE, (CO_DATA)&od_para_2 },
 #endif
 #endif
 #ifdef OD_EMCY
@@ -196,55 +223,55 @@ static CO_OBJ od[] = {
 #endif
 #if OD_RPDO > 0
     { OD_ID(0x1400, 0, CO_OBJ_D___R_), CO_TUNSIGNED8,  (CO_DATA)2 },
-    { OD_ID(0x1400, 1, CO_OBJ__N__RW), CO_TPDO_ID,     (CO_DATA)&v1400_1[0] },
-    { OD_ID(0x1400, 2, CO_OBJ_____RW), CO_TPDO_TYPE,   (CO_DATA)&v1400_2[0] },
+    { OD_ID(0x1400, 1, CO_OBJ__N__RW), CO_TPDO_ID,     (CO_DATA)&v1400_1_0 },
+    { OD_ID(0x1400, 2, CO_OBJ_____RW), CO_TPDO_TYPE,   (CO_DATA)&v1400_2_0 },
 #endif
 #if OD_RPDO > 1
     { OD_ID(0x1401, 0, CO_OBJ_D___R_), CO_TUNSIGNED8,  (CO_DATA)2 },
-    { OD_ID(0x1401, 1, CO_OBJ__N__RW), CO_TPDO_ID,     (CO_DATA)&v1400_1[1] },
-    { OD_ID(0x1401, 2, CO_OBJ_____RW), CO_TPDO_TYPE,   (CO_DATA)&v1400_2[1] },
+    { OD_ID(0x1401, 1, CO_OBJ__N__RW), CO_TPDO_ID,     (CO_DATA)&v1400_1_1 },
+    { OD_ID(0x1401, 2, CO_OBJ_____RW), CO_TPDO_TYPE,   (CO_DATA)&v1400_2_1 },
 #endif
 #if OD_RPDO > 0
-    { OD_ID(0x1600, 0, CO_OBJ_____RW), CO_TPDO_NUM,    (CO_DATA)&v1600_0[0] },
-    { OD_ID(0x1600, 1, CO_OBJ_____RW), CO_TPDO_MAP,    (CO_DATA)&v1600[0][0] },
-    { OD_ID(0x1600, 2, CO_OBJ_____RW), CO_TPDO_MAP,    (CO_DATA)&v1600[0][1] },
-    { OD_ID(0x1600, 3, CO_OBJ_____RW), CO_TPDO_MAP,    (CO_DATA)&v1600[0][2] },
-    { OD_ID(0x1600, 4, CO_OBJ_____RW), CO_TPDO_MAP,    (CO_DATA)&v1600[0][3] },
+    { OD_ID(0x1600, 0, CO_OBJ_____RW), CO_TPDO_NUM,    (CO_DATA)&v1600_0_0 },
+    { OD_ID(0x1600, 1, CO_OBJ_____RW), CO_TPDO_MAP,    (CO_DATA)&v1600_00 },
+    { OD_ID(0x1600, 2, CO_OBJ_____RW), CO_TPDO_MAP,    (CO_DATA)&v1600_01 },
+    { OD_ID(0x1600, 3, CO_OBJ_____RW), CO_TPDO_MAP,    (CO_DATA)&v1600_02 },
+    { OD_ID(0x1600, 4, CO_OBJ_____RW), CO_TPDO_MAP,    (CO_DATA)&v1600_03 },
 #endif
 #if OD_RPDO > 1
-    { OD_ID(0x1601, 0, CO_OBJ_____RW), CO_TPDO_NUM,    (CO_DATA)&v1600_0[1] },
-    { OD_ID(0x1601, 1, CO_OBJ_____RW), CO_TPDO_MAP,    (CO_DATA)&v1600[1][0] },
-    { OD_ID(0x1601, 2, CO_OBJ_____RW), CO_TPDO_MAP,    (CO_DATA)&v1600[1][1] },
-    { OD_ID(0x1601, 3, CO_OBJ_____RW), CO_TPDO_MAP,    (CO_DATA)&v1600[1][2] },
-    { OD_ID(0x1601, 4, CO_OBJ_____RW), CO_TPDO_MAP,    (CO_DATA)&v1600[1][3] },
+    { OD_ID(0x1601, 0, CO_OBJ_____RW), CO_TPDO_NUM,    (CO_DATA)&v1600_0_1 },
+    { OD_ID(0x1601, 1, CO_OBJ_____RW), CO_TPDO_MAP,    (CO_DATA)&v1600_10 },
+    { OD_ID(0x1601, 2, CO_OBJ_____RW), CO_TPDO_MAP,    (CO_DATA)&v1600_11 },
+    { OD_ID(0x1601, 3, CO_OBJ_____RW), CO_TPDO_MAP,    (CO_DATA)&v1600_12 },
+    { OD_ID(0x1601, 4, CO_OBJ_____RW), CO_TPDO_MAP,    (CO_DATA)&v1600_13 },
 #endif
 #if OD_TPDO > 0
     { OD_ID(0x1800, 0, CO_OBJ_D___R_), CO_TUNSIGNED8,  (CO_DATA)5 },
-    { OD_ID(0x1800, 1, CO_OBJ__N__RW), CO_TPDO_ID,     (CO_DATA)&v1800_1[0] },
-    { OD_ID(0x1800, 2, CO_OBJ_____RW), CO_TPDO_TYPE,   (CO_DATA)&v1800_2[0] },
-    { OD_ID(0x1800, 3, CO_OBJ_____RW), CO_TUNSIGNED16, (CO_DATA)&v1800_3[0] },
-    { OD_ID(0x1800, 5, CO_OBJ_____RW), CO_TPDO_EVENT,  (CO_DATA)&v1800_5[0] },
+    { OD_ID(0x1800, 1, CO_OBJ__N__RW), CO_TPDO_ID,     (CO_DATA)&v1800_1_0 },
+    { OD_ID(0x1800, 2, CO_OBJ_____RW), CO_TPDO_TYPE,   (CO_DATA)&v1800_2_0 },
+    { OD_ID(0x1800, 3, CO_OBJ_____RW), CO_TUNSIGNED16, (CO_DATA)&v1800_3_0 },
+    { OD_ID(0x1800, 5, CO_OBJ_____RW), CO_TPDO_EVENT,  (CO_DATA)&v1800_5_0 },
 #endif
 #if OD_TPDO > 1
     { OD_ID(0x1801, 0, CO_OBJ_D___R_), CO_TUNSIGNED8,  (CO_DATA)5 },
-    { OD_ID(0x1801, 1, CO_OBJ__N__RW), CO_TPDO_ID,     (CO_DATA)&v1800_1[1] },
-    { OD_ID(0x1801, 2, CO_OBJ_____RW), CO_TPDO_TYPE,   (CO_DATA)&v1800_2[1] },
-    { OD_ID(0x1801, 3, CO_OBJ_____RW), CO_TUNSIGNED16, (CO_DATA)&v1800_3[1] },
-    { OD_ID(0x1801, 5, CO_OBJ_____RW), CO_TPDO_EVENT,  (CO_DATA)&v1800_5[1] },
+    { OD_ID(0x1801, 1, CO_OBJ__N__RW), CO_TPDO_ID,     (CO_DATA)&v1800_1_1 },
+    { OD_ID(0x1801, 2, CO_OBJ_____RW), CO_TPDO_TYPE,   (CO_DATA)&v1800_2_1 },
+    { OD_ID(0x1801, 3, CO_OBJ_____RW), CO_TUNSIGNED16, (CO_DATA)&v1800_3_1 },
+    { OD_ID(0x1801, 5, CO_OBJ_____RW), CO_TPDO_EVENT,  (CO_DATA)&v1800_5_1 },
 #endif
 #if OD_TPDO > 0
-    { OD_ID(0x1A00, 0, CO_OBJ_____RW), CO_TPDO_NUM,    (CO_DATA)&v1A00_0[0] },
-    { OD_ID(0x1A00, 1, CO_OBJ_____RW), CO_TPDO_MAP,    (CO_DATA)&v1A00[0][0] },
-    { OD_ID(0x1A00, 2, CO_OBJ_____RW), CO_TPDO_MAP,    (CO_DATA)&v1A00[0][1] },
-    { OD_ID(0x1A00, 3, CO_OBJ_____RW), CO_TPDO_MAP,    (CO_DATA)&v1A00[0][2] },
-    { OD_ID(0x1A00, 4, CO_OBJ_____RW), CO_TPDO_MAP,    (CO_DATA)&v1A00[0][3] },
+    { OD_ID(0x1A00, 0, CO_OBJ_____RW), CO_TPDO_NUM,    (CO_DATA)&v1A00_0_0 },
+    { OD_ID(0x1A00, 1, CO_OBJ_____RW), CO_TPDO_MAP,    (CO_DATA)&v1A00_00 },
+    { OD_ID(0x1A00, 2, CO_OBJ_____RW), CO_TPDO_MAP,    (CO_DATA)&v1A00_01 },
+    { OD_ID(0x1A00, 3, CO_OBJ_____RW), CO_TPDO_MAP,    (CO_DATA)&v1A00_02 },
+    { OD_ID(0x1A00, 4, CO_OBJ_____RW), CO_TPDO_MAP,    (CO_DATA)&v1A00_03 },
 #endif
 #if OD_TPDO > 1
-    { OD_ID(0x1A01, 0, CO_OBJ_____RW), CO_TPDO_NUM,    (CO_DATA)&v1A00_0[1] },
-    { OD_ID(0x1A01, 1, CO_OBJ_____RW), CO_TPDO_MAP,    (CO_DATA)&v1A00[1][0] },
-    { OD_ID(0x1A01, 2, CO_OBJ_____RW), CO_TPDO_MAP,    (CO_DATA)&v1A00[1][1] },
-    { OD_ID(0x1A01, 3, CO_OBJ_____RW), CO_TPDO_MAP,    (CO_DATA)&v1A00[1][2] },
-    { OD_ID(0x1A01, 4, CO_OBJ_____RW), CO_TPDO_MAP,    (CO_DATA)&v1A00[1][3] },
+    { OD_ID(0x1A01, 0, CO_OBJ_____RW), CO_TPDO_NUM,    (CO_DATA)&v1A00_0_1 },
+    { OD_ID(0x1A01, 1, CO_OBJ_____RW), CO_TPDO_MAP,    (CO_DATA)&v1A00_10 },
+    { OD_ID(0x1A01, 2, CO_OBJ_____RW), CO_TPDO_MAP,    (CO_DATA)&v1A00_11 },
+    { OD_ID(0x1A01, 3, CO_OBJ_____RW), CO_TPDO_MAP,    (CO_DATA)&v1A00_12 },
+    { OD_ID(0x1A01, 4, CO_OBJ_____RW), CO_TPDO_MAP,    (CO_DATA)&v1A00_13 },
 #endif
 #ifndef OD_NOAPP
     { OD_ID(0x2100, 0, CO_OBJ____PRW), CO_TUNSIGNED8,  (CO_DATA)&app.b  },
@@ -305,12 +332,12 @@ static void od_defaults(void)
     v1280_1 = 0x600 + 9; v1280_2 = 0x580 + 9; v1280_3 = 9;
 #endif
 #if OD_RPDO > 0
-    v1400_1[0] = 0x200; v1400_2[0] = 254; v1600_0[0] = 0;
-    v1400_1[1] = 0x300; v1400_2[1] = 254; v1600_0[1] = 0;
+    V1400_1(0) = 0x200; V1400_2(0) = 254; V1600_0(0) = 0;
+    V1400_1(1) = 0x300; V1400_2(1) = 254; V1600_0(1) = 0;
 #endif
 #if OD_TPDO > 0
-    v1800_1[0] = 0x40000180; v1800_2[0] = 254; v1800_3[0] = 0; v1800_5[0] = 0; v1A00_0[0] = 0;
-    v1800_1[1] = 0x40000280; v1800_2[1] = 254; v1800_3[1] = 0; v1800_5[1] = 0; v1A00_0[1] = 0;
+    V1800_1(0) = 0x40000180; V1800_2(0) = 254; V1800_3(0) = 0; V1800_5(0) = 0; V1A00_0(0) = 0;
+    V1800_1(1) = 0x40000280; V1800_2(1) = 254; V1800_3(1) = 0; V1800_5(1) = 0; V1A00_0(1) = 0;
 #endif
 }
 
